@@ -282,7 +282,7 @@ Section WRITER.
     destruct ci_parts as (Hn & Hlen & Htr & Hsp & Hunk & Hext & Hw & Hshape & Hk
                           & Hflk & Hp1 & Hp2 & Hp3 & Hp4 & Hch & Hlas & Hpolys
                           & Hbasins).
-    unfold violations, lends. change (f_evcount g) with (Some n).
+    rewrite (violations_defined g n); [|reflexivity|clear - Hn; lia].
     f_equal. unfold violations_n.
     (* 1 basins *)
     assert (A1 : check_basin_features_internal g = []).
@@ -371,6 +371,8 @@ Section WRITER.
       change (f_pixel_size g) with (f_pixel_size f).
       change (f_channel_width g) with (f_channel_width f).
       change (f_flow_rate g) with (f_flow_rate f).
+      change (f_evcount g) with (Some n). cbn beta iota.
+      assert (EN : (n <? 0) = false) by (clear - Hn; lia). rewrite EN.
       unfold positive_or_absent in Hp1, Hp2, Hp3, Hp4.
       clear - Hp1 Hp2 Hp3 Hp4.
       destruct (f_frame_rate f) as [v1|], (f_pixel_size f) as [v2|],
